@@ -1,4 +1,25 @@
-(** C16 — property theorems (statements only; proofs by [exact]). *)
+(** C16 — property theorems (statements only; proofs by [exact]).  [Heap], [prios]: Proofs.v. *)
 From Coq Require Import ZArith List Bool.
-From RlibV Require Import C03.Model C16.Model.
+From RlibV Require Import C03.Model C16.Model C16.Proofs.
+Import ListNotations.
 Open Scope Z_scope.
+
+(** after every history of the multi-treap machine, for every priority stream and ANY item functions, every live treap is heap-ordered along every edge *)
+Theorem c16_heap_preserved : forall (T M V A : Type) (update : T -> option T -> option T -> T) (push : T -> option T -> option T -> T * option T * option T) (size : T -> Z) (modify : M -> T -> T) (elem : T -> V) (agg : T -> A) (ps : list Z) (ops : list (@op T M V)), Forall Heap (run_final update push size modify elem agg ps ops).
+Proof. exact @heap_preserved. Qed.
+
+(** each operation keeps heap order and only concatenates / splits / keeps the in-order priority sequence (insert adds the new priority, remove drops a segment) *)
+Theorem c16_priorities_only_moved : forall (T M : Type) (update : T -> option T -> option T -> T) (push : T -> option T -> option T -> T * option T * option T) (size : T -> Z) (modify : M -> T -> T), (forall a b : @tree T, Heap a -> Heap b -> Heap (merge update push a None b None) /\ prios (merge update push a None b None) = prios a ++ prios b) /\ (forall (t : @tree T) k a b, Heap t -> split_at update push size t None k = (a, b) -> Heap a /\ Heap b /\ prios a ++ prios b = prios t) /\ (forall q (t : @tree T) a b, Heap t -> split_by update push q t None = (a, b) -> Heap a /\ Heap b /\ prios a ++ prios b = prios t) /\ (forall t : @tree T, Heap t -> (Heap (fst (first push t None)) /\ prios (fst (first push t None)) = prios t) /\ (Heap (fst (last push t None)) /\ prios (fst (last push t None)) = prios t) /\ (Heap (fst (collect push t None)) /\ prios (fst (collect push t None)) = prios t)) /\ (forall (t : @tree T) k x p, Heap t -> Heap (insert_at update push size t k x p) /\ exists l r, prios t = l ++ r /\ prios (insert_at update push size t k x p) = l ++ p :: r) /\ (forall (t : @tree T) k, Heap t -> Heap (fst (remove_at update push size t k)) /\ exists l m r, prios t = l ++ m ++ r /\ prios (fst (remove_at update push size t k)) = l ++ r) /\ (forall m (t : @tree T), Heap t -> Heap (modify_root modify m t) /\ prios (modify_root modify m t) = prios t).
+Proof. exact @ops_heap_prios. Qed.
+
+(** heap-ordered trees with the same in-order (priority, item) list and pairwise distinct priorities are equal: the shape is the Cartesian tree, whatever the history *)
+Theorem c16_canonical : forall (T : Type) (t1 t2 : @tree T), Heap t1 -> Heap t2 -> inorder t1 = inorder t2 -> NoDup (map fst (inorder t1)) -> t1 = t2.
+Proof. exact @canonical. Qed.
+
+(** the boolean heap test evaluated in the correspondence batches decides Heap *)
+Theorem c16_heapb_Heap : forall (T : Type) (t : @tree T), heapb t = true <-> Heap t.
+Proof. exact @heapb_Heap. Qed.
+
+(** PARTIAL (the height bound is probabilistic, no universal theorem exists): for the modelled generator (seed 42) and the named adversarial families - sorted appends, front inserts, insert + split-and-swap rotation - with n = 2^k, k <= 14, the model's tree has height <= 5*log2(n+1)+20, is heap-ordered and has n nodes. Missing: any statement for other n, other families, other seeds *)
+Theorem c16_height_partial : forall k : Z, 0 <= k <= 14 -> let n := 2 ^ k in (height (fam step_append n) <= 5 * Z.log2 (n + 1) + 20 /\ Heap (fam step_append n) /\ tsize isize (fam step_append n) = n) /\ (height (fam step_front n) <= 5 * Z.log2 (n + 1) + 20 /\ Heap (fam step_front n) /\ tsize isize (fam step_front n) = n) /\ (height (fam step_rotate n) <= 5 * Z.log2 (n + 1) + 20 /\ Heap (fam step_rotate n) /\ tsize isize (fam step_rotate n) = n).
+Proof. exact height_partial. Qed.
